@@ -170,7 +170,7 @@ Definition digits_of (n : N) : str := digits_fuel (S (N.to_nat (N.log2 n))) n []
 Inductive vspec :=
 | QNum (n : nspec)
 | QRange (a b : nspec)
-| QText (toks : list ptok).     (* the words of a text value, as printed *)
+| QText (toks : list ptok).     (* a text value, as printed (its inner blanks are significant) *)
 
 Record qspec := { qs_val : vspec; qs_lock : bool; qs_unit : option (list ptok) }.
 
@@ -182,7 +182,8 @@ Record qtape := {
   q_bd : list ptok; q_ad : list ptok;   (* around the `-` of a range *)
   q_trail : list ptok;       (* after the value (before `%` or `}`) *)
   q_after_pct : list ptok;   (* after `%` *)
-  q_end : list ptok          (* after the unit *)
+  q_end : list ptok;         (* after the unit *)
+  q_adv : option (list ptok) (* ADVANCED_UNITS spelling `{1 g}`: these blanks instead of `%` *)
 }.
 
 Definition print_value (v : vspec) (tp : qtape) : list ptok :=
@@ -192,13 +193,18 @@ Definition print_value (v : vspec) (tp : qtape) : list ptok :=
   | QText toks => toks
   end.
 
+Definition print_unit (q : qspec) (tp : qtape) : list ptok :=
+  match qs_unit q with
+  | Some u => match q_adv tp with
+              | Some gap => gap ++ u ++ q_end tp
+              | None => q_trail tp ++ pct_p :: q_after_pct tp ++ u ++ q_end tp
+              end
+  | None => q_trail tp
+  end.
+
 Definition print_qty (q : qspec) (tp : qtape) : list ptok :=
   q_lead tp ++ (if qs_lock q then eq_p :: q_after_lock tp else []) ++
-  print_value (qs_val q) tp ++ q_trail tp ++
-  match qs_unit q with
-  | Some u => pct_p :: q_after_pct tp ++ u ++ q_end tp
-  | None => []
-  end.
+  print_value (qs_val q) tp ++ print_unit q tp.
 
 (* the intended reading: value, "scaling is locked", unit *)
 Definition denote_value (v : vspec) : value :=
@@ -218,15 +224,35 @@ Definition qproj (q : quantity) : value * bool * option str :=
 
 Definition kind_in (k : tkind) (p : list ptok) : bool := existsb (fun t => tk_eqb (fst t) k) p.
 
-(* a text value / a unit as printed: ordinary tokens, first one a word, nothing that ends the
-   field (`%`), no `-` (it would be tried as a range) *)
-Definition words_ok (p : list ptok) : bool :=
-  forallb shape_ok p && negb (kind_in KPercent p) && negb (kind_in KMinus p) &&
+(* token kinds a number spelling is made of (blanks included) *)
+Definition numk (k : tkind) : bool :=
+  match k with
+  | KInt | KZeroInt | KDot | KSlash | KWs | KLineComment | KBlockComment => true
+  | _ => false
+  end.
+Definition numk_p (t : ptok) : bool := numk (fst t).
+Fixpoint first_nonnum (p : list ptok) : option tkind :=
   match p with
-  | t :: _ => tk_eqb (fst t) KWord
-  | [] => false
+  | [] => None
+  | t :: r => if numk (fst t) then first_nonnum r else Some (fst t)
+  end.
+Definition head_kind (p : list ptok) : tkind := match p with t :: _ => fst t | [] => KEof end.
+
+(* A text value as printed: it does not end the field (`%`), does not start with a blank or the
+   lock sign, and is not a number spelling: some token is not part of any number, and with
+   RANGE_VALUES the first such token is not `-` (else what precedes it could be a range start).
+   [pct]: the quantity has a `%` unit.  Without one, ADVANCED_UNITS would read `2 big ones` as
+   value 2, unit `big ones`: then the text starts with a word or contains none. *)
+Definition text_ok (cfg : pcfg) (pct : bool) (p : list ptok) : bool :=
+  forallb shape_ok p && negb (kind_in KPercent p) && negb (str_blank (toks_text p)) &&
+  negb (is_ws_comment (head_kind p)) && negb (tk_eqb (head_kind p) KEq) &&
+  match first_nonnum p with
+  | Some k => negb (has cfg X_RANGE_VALUES) || negb (tk_eqb k KMinus)
+  | None => false
   end &&
-  negb (str_blank (toks_text p)).
+  (negb (has cfg X_ADVANCED_UNITS) || pct || tk_eqb (head_kind p) KWord || negb (kind_in KWord p)).
+
+Definition last_kind (p : list ptok) : tkind := match rev p with t :: _ => fst t | [] => KEof end.
 
 Definition qty_wf (cfg : pcfg) (q : qspec) (tp : qtape) : bool :=
   negb (p_strict_escape cfg) &&
@@ -236,9 +262,227 @@ Definition qty_wf (cfg : pcfg) (q : qspec) (tp : qtape) : bool :=
   match qs_val q with
   | QNum n => num_wf n (q_ta tp)
   | QRange a b => has cfg X_RANGE_VALUES && num_wf a (q_ta tp) && num_wf b (q_tb tp)
-  | QText toks => words_ok toks
+  | QText toks => text_ok cfg (match qs_unit q with Some _ => true | None => false end) toks
   end &&
   match qs_unit q with
-  | Some u => forallb shape_ok u && negb (str_blank (toks_text u))
+  | Some u => forallb shape_ok u && negb (str_blank (toks_text u)) && negb (kind_in KPercent u)
   | None => true
+  end &&
+  (* the blank-instead-of-`%` spelling: ADVANCED_UNITS on, a number or range, blanks ending in
+     white space, a unit that starts with a word *)
+  match q_adv tp, qs_unit q with
+  | Some gap, Some u =>
+      has cfg X_ADVANCED_UNITS && match qs_val q with QText _ => false | _ => true end &&
+      forallb blank_ok gap && tk_eqb (last_kind gap) KWs && tk_eqb (head_kind u) KWord
+  | _, _ => true
+  end.
+
+(* ---------------------------------------------------------------- events, spans erased *)
+Inductive ev_spec :=
+| SYaml (s : str)
+| SMeta (k v : str)
+| SSection (name : option str)
+| SStart (step : bool)
+| SEnd (step : bool)
+| SText (s : str)
+| SIngredient (mods : N) (inter : option (bool * bool * N)) (name : str) (alias : option str)
+              (q : option (value * bool * option str)) (note : option str)
+| SCookware (mods : N) (name : str) (alias : option str) (q : option (value * bool)) (note : option str)
+| STimer (name : option str) (q : option (value * bool * option str))
+| SDiag (err : bool) (code : N).
+
+Definition qvproj (v : qvalue) : value * bool :=
+  (qv v, match qlock v with Some _ => true | None => false end).
+
+Definition ev_proj (e : pevent) : ev_spec :=
+  match e with
+  | EvYaml t => SYaml (text_str t)
+  | EvMetadata k v => SMeta (text_trimmed k) (text_outer_trimmed v)
+  | EvSection n => SSection (option_map text_trimmed n)
+  | EvStart b => SStart b
+  | EvEnd b => SEnd b
+  | EvText t => SText (text_str t)
+  | EvIngredient i =>
+      SIngredient (i_mods i)
+        (option_map (fun d => (im_relative d, im_section d, im_val d)) (i_inter i))
+        (text_trimmed (i_name i)) (option_map text_trimmed (i_alias i))
+        (option_map qproj (i_qty i)) (option_map text_trimmed (i_note i))
+  | EvCookware c =>
+      SCookware (c_mods c) (text_trimmed (Parser.c_name c)) (option_map text_trimmed (Parser.c_alias c))
+        (option_map (fun p => qvproj (fst p)) (Parser.c_qty c)) (option_map text_trimmed (Parser.c_note c))
+  | EvTimer t => STimer (option_map text_trimmed (t_name t)) (option_map qproj (t_qty t))
+  | EvDiag d => SDiag (d_err d) (d_code d)
+  end.
+
+(* ---------------------------------------------------------------- components *)
+Inductive ckind := CIgr | CCw | CTm.
+Inductive cbody :=
+| BQty (q : qspec) (tp : qtape)     (* {quantity} *)
+| BEmpty (inner : list ptok)        (* {} with white space inside *)
+| BWord.                            (* no braces: the name is one word *)
+
+Record cspec := {
+  cs_kind : ckind;
+  cs_name : list ptok;
+  cs_alias : option (list ptok);     (* name|alias *)
+  cs_body : cbody;
+  cs_note : option (list ptok)       (* (note) *)
+}.
+
+Definition marker_p (k : ckind) : ptok :=
+  match k with CIgr => (KAt, [64]) | CCw => (KHash, [35]) | CTm => (KTilde, [126]) end.
+Definition bar_p : ptok := (KOr, [124]).
+Definition ob_p : ptok := (KOpenBrace, [123]).
+Definition cb_p : ptok := (KCloseBrace, [125]).
+Definition op_p : ptok := (KOpenParen, [40]).
+Definition cp_p : ptok := (KCloseParen, [41]).
+
+Definition print_cname (c : cspec) : list ptok :=
+  cs_name c ++ match cs_alias c with Some a => bar_p :: a | None => [] end.
+Definition print_cbody (b : cbody) : list ptok :=
+  match b with
+  | BQty q tp => ob_p :: print_qty q tp ++ [cb_p]
+  | BEmpty inner => ob_p :: inner ++ [cb_p]
+  | BWord => []
+  end.
+Definition print_cnote (c : cspec) : list ptok :=
+  match cs_note c with Some n => op_p :: n ++ [cp_p] | None => [] end.
+Definition print_comp (c : cspec) : list ptok :=
+  marker_p (cs_kind c) :: print_cname c ++ print_cbody (cs_body c) ++ print_cnote c.
+
+Definition denote_cqty (b : cbody) : option (value * bool * option str) :=
+  match b with BQty q _ => Some (denote_qty q) | _ => None end.
+
+Definition denote_comp (c : cspec) : ev_spec :=
+  let name := clean (toks_text (cs_name c)) in
+  let alias := option_map (fun a => clean (toks_text a)) (cs_alias c) in
+  let note := option_map (fun n => clean (toks_text n)) (cs_note c) in
+  match cs_kind c with
+  | CIgr => SIngredient 0 None name alias (denote_cqty (cs_body c)) note
+  | CCw => SCookware 0 name alias (option_map (fun q => (fst (fst q), snd (fst q))) (denote_cqty (cs_body c))) note
+  | CTm => STimer (if str_blank (toks_text (cs_name c)) then None else Some name) (denote_cqty (cs_body c))
+  end.
+
+Definition no_kinds (ks : list tkind) (p : list ptok) : bool :=
+  forallb (fun t => negb (existsb (tk_eqb (fst t)) ks)) p.
+Definition is_modifier_k (k : tkind) : bool :=
+  match k with KAt | KQuestion | KPlus | KMinus | KAnd => true | _ => false end.
+
+(* text of a name, alias or note: ordinary tokens without `{ @ # ~` *)
+Definition ctext_ok (p : list ptok) : bool :=
+  forallb shape_ok p && no_kinds [KOpenBrace; KAt; KHash; KTilde] p.
+
+Definition comp_wf (cfg : pcfg) (c : cspec) : bool :=
+  negb (p_strict_escape cfg) &&
+  ctext_ok (cs_name c) &&
+  (* the token after the marker is not a modifier character (modifiers: see print_comp_mods) *)
+  negb (is_modifier_k (head_kind (print_cname c ++ print_cbody (cs_body c)))) &&
+  (* name *)
+  match cs_kind c, cs_body c with
+  | CTm, BQty _ _ => true
+  | _, _ => negb (str_blank (toks_text (cs_name c)))
+  end &&
+  (* alias *)
+  match cs_alias c with
+  | Some a => has cfg X_COMPONENT_ALIAS && no_kinds [KOr] (cs_name c) && no_kinds [KOr] a && ctext_ok a &&
+              negb (str_blank (toks_text a)) &&
+              match cs_kind c with CTm => false | _ => true end &&
+              match cs_body c with BWord => false | _ => true end
+  | None => negb (has cfg X_COMPONENT_ALIAS) || no_kinds [KOr] (cs_name c)
+  end &&
+  (* body *)
+  match cs_body c with
+  | BQty q tp => qty_wf cfg q tp && no_kinds [KCloseBrace] (print_qty q tp) &&
+                 match cs_kind c with
+                 | CIgr => true
+                 | CCw => match qs_unit q with None => true | Some _ => false end
+                 | CTm => match qs_unit q with None => false | Some _ => true end
+                 end
+  | BEmpty inner => forallb (fun t => is_ws_block (fst t) && shape_ok t) inner &&
+                    match cs_kind c with CTm => negb (has cfg X_TIMER_REQUIRES_TIME) | _ => true end
+  | BWord => forallb (fun t => is_single_word_tok (fst t)) (cs_name c) && negb (is_nil (cs_name c)) &&
+             match cs_kind c with CTm => negb (has cfg X_TIMER_REQUIRES_TIME) | _ => true end
+  end &&
+  (* note *)
+  match cs_note c with
+  | Some n => ctext_ok n && no_kinds [KCloseParen] n && match cs_kind c with CTm => false | _ => true end
+  | None => true
+  end.
+
+Fixpoint first_mo_p (p : list ptok) : tkind :=
+  match p with
+  | [] => KEof
+  | t :: r => if is_marker_or_open (fst t) then fst t else first_mo_p r
+  end.
+
+(* what may follow: no `(` unless the note is there; after a bare word no word or digit token,
+   and no `{` before the next marker (it would close a multi-word name) *)
+Definition comp_follow (c : cspec) (k : list ptok) : bool :=
+  match cs_note c with Some _ => true | None => negb (tk_eqb (head_kind k) KOpenParen) end &&
+  match cs_body c with
+  | BWord => match cs_note c with Some _ => true | None => negb (is_single_word_tok (head_kind k)) end &&
+             negb (tk_eqb (first_mo_p k) KOpenBrace)
+  | _ => true
+  end.
+
+(* ---------------------------------------------------------------- steps *)
+Inductive item := IText (toks : list ptok) | IComp (c : cspec).
+Definition print_item (i : item) : list ptok :=
+  match i with IText t => t | IComp c => print_comp c end.
+Definition print_items (l : list item) : list ptok := concat (map print_item l).
+Definition denote_item (i : item) : ev_spec :=
+  match i with IText t => SText (toks_text t) | IComp c => denote_comp c end.
+
+(* a text piece: ordinary tokens (words, blanks, newlines = line wraps, comments, escapes) without an
+   unescaped `@ # ~ {`, contributing at least one character *)
+Definition text_item_ok (p : list ptok) : bool :=
+  forallb shape_ok p && no_kinds [KOpenBrace; KAt; KHash; KTilde] p && negb (is_nil (toks_text p)).
+
+(* items alternate (adjacent text pieces are one piece) and each component is followed by what
+   comp_follow allows *)
+Fixpoint items_ok (cfg : pcfg) (l : list item) : bool :=
+  match l with
+  | [] => true
+  | IText t :: r =>
+      text_item_ok t && match r with IText _ :: _ => false | _ => true end && items_ok cfg r
+  | IComp c :: r => comp_wf cfg c && comp_follow c (print_items r) && items_ok cfg r
+  end.
+
+(* ---------------------------------------------------------------- blocks *)
+Inductive block :=
+| BkMeta (key value : list ptok)                       (* >> key : value *)
+| BkSection (n1 : nat) (name : list ptok) (n2 : nat) (trail : list ptok)   (* =.. name =.. *)
+| BkStep (items : list item).
+
+Definition meta_p : ptok := (KMeta, [62; 62]).
+Definition colon_p : ptok := (KColon, [58]).
+Definition print_block (b : block) : list ptok :=
+  match b with
+  | BkMeta k v => meta_p :: k ++ colon_p :: v
+  | BkSection n1 name n2 trail => eq_p :: repeat eq_p n1 ++ name ++ repeat eq_p n2 ++ trail
+  | BkStep items => print_items items
+  end.
+
+Definition denote_block (b : block) : list ev_spec :=
+  match b with
+  | BkMeta k v => [SMeta (clean (toks_text k)) (trim (toks_text v))]
+  | BkSection _ name _ _ => [SSection (Some (clean (toks_text name)))]
+  | BkStep items => SStart true :: map denote_item items ++ [SEnd true]
+  end.
+
+Definition is_empty_k (k : tkind) : bool :=
+  match k with KWs | KBlockComment | KLineComment | KNewline => true | _ => false end.
+
+Definition block_ok (cfg : pcfg) (b : block) : bool :=
+  negb (p_strict_escape cfg) &&
+  match b with
+  | BkMeta k v => forallb shape_ok k && forallb shape_ok v && no_kinds [KColon] k &&
+                  negb (str_blank (toks_text k)) && negb (str_blank (toks_text v))
+  | BkSection n1 name n2 trail =>
+      forallb shape_ok name && no_kinds [KEq] name && negb (str_blank (toks_text name)) &&
+      forallb blank_ok trail
+  | BkStep items =>
+      items_ok cfg items &&
+      negb (forallb (fun t => is_empty_k (fst t)) (print_items items)) &&
+      negb (existsb (tk_eqb (head_kind (print_items items))) [KMeta; KEq; KTextStep])
   end.
